@@ -1,5 +1,7 @@
 import Poulpy.Lemmas.FheUint
 import Poulpy.Lemmas.BlindSel
+import Poulpy.Lemmas.Cbt
+import Poulpy.Props.C20
 import Mathlib.Tactic.Positivity
 /-
 C15 — encrypted integers: bit layout and bit surgery (index algebra), over the plaintext-level model
@@ -235,20 +237,222 @@ example : BlindSel.blindSelection (fun b (t f : Nat) => if b then t else f) 0 (5
     (fun j => if j = 0 then some 100 else if j = 2 then some 102 else if j = 5 then some 105 else none) = 105 := by decide
 
 /-- **GLWEBlindRetriever (one-shot), instances.**  On the identity table `[0, …, size-1]` the binary-counter
-retrieval returns `idx` for every size 2..17 and every index in range, with the index field at offset 0 and 2
+retrieval returns `idx` for every size 1..17 and every index in range, with the index field at offset 0 and 2
 (the model is polymorphic in the element type, so the routing does not depend on the table's contents).
-`size = 1` allocates no accumulator and `add_core` panics (`split_at_mut(1)` of an empty slice) — recorded finding. -/
+`size = 1` (one accumulator since repair 23) returns the element. -/
 theorem retrieve_instances :
-    ((List.range' 2 16).all fun size => (List.range size).all fun idx => [0, 2].all fun off =>
+    ((List.range' 1 17).all fun size => (List.range size).all fun idx => [0, 2].all fun off =>
       match BlindSel.retrieve (fun b (res a : Nat) => if b then a else res) 0 0 size (idx <<< off) off (List.range size) with
       | .ok w => w == idx
       | _ => false) = true ∧
     (match BlindSel.retrieve (fun b (res a : Nat) => if b then a else res) 0 0 1 0 0 [7] with
-     | .panic _ => true
+     | .ok w => w == 7
      | _ => false) = true := by decide
 
 /- FULL STATEMENT (not proved) for the one-shot form: for every `2 ≤ size`, `data.length ≤ 2^bit_size`, `idx` field
 `< data.length`: `retrieve … = ok data[idx]` (binary-counter invariant: accumulator `i` with `num = 1` holds the
 selection, by index bits `< i`, of the last complete aligned block of `2^i` elements). -/
+
+/-! ### Circuit bootstrapping (constant mode) and integer preparation as compositions -/
+
+set_option maxHeartbeats 400000 in
+open Lut Cbt in
+/-- **LWE bit → GGLWE rows of the bit.**  `circuit_bootstrap_core` in constant mode (`log_domain = 1`, one table
+polynomial): the table `f[j·α + i] = j·2^{res_base2k·(dnum−1−i)}`, the blind rotation (standard or block-binary, binary
+block key, external-product contract) and the row loop `row_i ← trace(res); res ← X^{−gap}·res`.  If the rotation index
+lands in the cell of the bit — `(drift − (b₀ + Σ a_i s_i)) mod 2N = bit·α·step + e`, `0 ≤ e < step`, which is what an LWE
+phase `bit/4 + noise`, `|noise·2N| < step/2`, gives (see `C14.index_error` for the mod-switch part of the noise) — then
+for every row `i < dnum` the constant coefficient kept by the trace is the limb vector of `bit·2^{res_base2k·(dnum−1−i)}`
+scaled to the top limbs: the `dnum` rows of a GGLWE of `bit` in every cell. -/
+theorem cbt_rows_bit (n b resB dnum step block q : Nat) (hn : 0 < n) (hn2 : 2 * (n : Int) < 2 ^ 62) (hb : 1 ≤ b) (hb2 : b ≤ 63)
+    (hdnum : 1 ≤ dnum) (hdiv : n = 2 * nextPow2 dnum * step) (hstep2 : step % 2 = 0)
+    (hbits : maxBitSize (cbtTable 1 dnum resB) + (resB * dnum) % b < 64) (hl1 : 1 ≤ (resB * dnum + b - 1) / b)
+    (hsym : SymP b (tableF b ((resB * dnum + b - 1) / b) ((resB * dnum + b - 1) / b) step
+      (if (resB * dnum) % b ≠ 0 then 2 ^ (b - (resB * dnum) % b) else 1) (cbtTable 1 dnum resB)))
+    (hblock : 0 < block) (b0 : Int) (a sk : List Int) (hq : (List.zip a sk).length = block * q)
+    (hkey : ∀ blk ∈ chunksExact block (List.zip a sk).length (List.zip a sk), BinBlock blk)
+    (bit e : Nat) (hbit : bit < 2) (he : e < step)
+    (hcell : (((step / 2 : Nat) : Int) - (b0 + blkPhase (List.zip a sk))) % (2 * (n : Int)) =
+      ((bit * nextPow2 dnum * step + e : Nat) : Int)) :
+    ∃ T p0, lutSet n 1 b (resB * dnum) (cbtTable 1 dnum resB) (resB * dnum) = .ok T ∧ T.data = [p0] ∧
+      cbtRows dnum (cbtGap T.drift 1) (blindPlain b block p0 (b0 :: a) sk) =
+        (List.range dnum).map fun i =>
+          enc b ((resB * dnum + b - 1) / b) ((resB * dnum + b - 1) / b)
+            (w64 (((bit : Nat) : Int) * 2 ^ (resB * (dnum - 1 - i)) *
+              (if (resB * dnum) % b ≠ 0 then 2 ^ (b - (resB * dnum) % b) else 1))) := by
+  obtain ⟨hage, hapos⟩ := nextPow2_ge dnum
+  have hflen := cbtTable_length dnum resB
+  have hstep : 0 < step := by
+    rcases Nat.eq_zero_or_pos step with h | h
+    · subst h; omega
+    · exact h
+  have hdiv' : n = (cbtTable 1 dnum resB).length * step := by rw [hflen]; exact hdiv
+  have hset := lutSet_ext1 n b (resB * dnum) (resB * dnum) step (cbtTable 1 dnum resB) hn hn2 hb (by rw [hflen]; omega) hdiv' hbits hl1
+    (Nat.le_refl _)
+  generalize hsz : (resB * dnum + b - 1) / b = size at *
+  generalize hsc : (if (resB * dnum) % b ≠ 0 then (2:Int) ^ (b - (resB * dnum) % b) else 1) = scale at *
+  set F' := tableF b size size step scale (cbtTable 1 dnum resB) with hF'
+  have hF'len : F'.length = n := by rw [tableF_length, ← hdiv']
+  have hF'r : InRange F' := symP_inRange b hb2 F' hsym
+  have hF'sh : Shaped n size F' := ⟨hF'len, tableF_vec_length _ _ _ _ _ _⟩
+  refine ⟨_, rotate (-((step / 2 : Nat) : Int)) F', hset, rfl, ?_⟩
+  rw [blindPlain_rotates b block q hb hb2 hblock _ (rotate_shaped _ _ hF'sh) (rotate_sym b hb2 _ _ hsym) b0 a sk hq hkey]
+  generalize hK : b0 + blkPhase (List.zip a sk) = K at *
+  have hgap : cbtGap (step / 2) 1 = step := by unfold cbtGap; omega
+  simp only [hgap]
+  unfold cbtRows
+  apply List.map_congr_left
+  intro i hi
+  have hid : i < dnum := List.mem_range.1 hi
+  have hPr : InRange (rotate K (rotate (-((step / 2 : Nat) : Int)) F')) :=
+    rotate_inRange _ _ (rotate_inRange _ _ hF'r)
+  rw [iterRotateBy _ _ hPr i, rotate_rotate _ _ _ (rotate_inRange _ _ hF'r),
+    coeff0_rotate_rotate F' hF'r n hF'len hn]
+  simp only [Option.getD_some]
+  have hsx := sext_tableF b size size step scale (cbtTable 1 dnum resB) hstep (by rw [hflen]; omega)
+    (((step / 2 : Nat) : Int) - ((i : Int) * -(step : Int) + K))
+  simp only [← hdiv'] at hsx
+  -- the cell of the rotated position
+  have hm : (((step / 2 : Nat) : Int) - ((i : Int) * -(step : Int) + K)) % (2 * (n : Int)) =
+      (((bit * nextPow2 dnum + i) * step + e : Nat) : Int) := by
+    have e1 : ((step / 2 : Nat) : Int) - ((i : Int) * -(step : Int) + K) = (((step / 2 : Nat) : Int) - K) + (i : Int) * (step : Int) := by ring
+    rw [e1, Int.add_emod, hcell]
+    have hlt : (bit * nextPow2 dnum + i) * step + e < n := by
+      have h1 : bit * nextPow2 dnum + i + 1 ≤ 2 * nextPow2 dnum := by
+        have : bit * nextPow2 dnum ≤ 1 * nextPow2 dnum := Nat.mul_le_mul_right _ (by omega)
+        omega
+      have h2 : (bit * nextPow2 dnum + i + 1) * step ≤ 2 * nextPow2 dnum * step := Nat.mul_le_mul_right _ h1
+      rw [Nat.succ_mul] at h2; omega
+    have hi2 : (i : Int) * (step : Int) % (2 * (n : Int)) = (i : Int) * (step : Int) := by
+      apply Int.emod_eq_of_lt (by positivity)
+      have : i * step < n := by
+        have h1 : (i + 1) * step ≤ 2 * nextPow2 dnum * step := Nat.mul_le_mul_right _ (by omega)
+        rw [Nat.succ_mul] at h1; omega
+      have : ((i * step : Nat) : Int) < (n : Int) := by exact_mod_cast this
+      push_cast at this; omega
+    rw [hi2]
+    have hsum : ((bit * nextPow2 dnum * step + e : Nat) : Int) + (i : Int) * (step : Int) =
+        (((bit * nextPow2 dnum + i) * step + e : Nat) : Int) := by push_cast; ring
+    rw [hsum]
+    apply Int.emod_eq_of_lt (by positivity)
+    have : (((bit * nextPow2 dnum + i) * step + e : Nat) : Int) < (n : Int) := by exact_mod_cast hlt
+    omega
+  rw [hm] at hsx
+  simp only [Int.toNat_natCast] at hsx
+  have hlt : (bit * nextPow2 dnum + i) * step + e < n := by
+    have h1 : bit * nextPow2 dnum + i + 1 ≤ 2 * nextPow2 dnum := by
+      have : bit * nextPow2 dnum ≤ 1 * nextPow2 dnum := Nat.mul_le_mul_right _ (by omega)
+      omega
+    have h2 : (bit * nextPow2 dnum + i + 1) * step ≤ 2 * nextPow2 dnum * step := Nat.mul_le_mul_right _ h1
+    rw [Nat.succ_mul] at h2; omega
+  have hidx : ((bit * nextPow2 dnum + i) * step + e) % n / step = bit * nextPow2 dnum + i := by
+    rw [Nat.mod_eq_of_lt hlt, Nat.mul_comm, Nat.mul_add_div hstep, Nat.div_eq_of_lt he]; rfl
+  rw [hidx, cbtTable_get dnum resB bit i hbit hid] at hsx
+  simp only [Option.map_some, hlt, if_true, Option.some.injEq] at hsx
+  rw [hsx]
+
+
+open Lut Cbt in
+/-- non-vacuity: N = 16, dnum = 2 (α = 2, table `[0,0,2^4,1]·…`), res_base2k = 4, radix 5, step 4; phase cell of bit 1 -/
+example : cbtRows 2 4 (blindPlain 5 1 (rotate (-2) (tableF 5 2 2 4 4 (cbtTable 1 2 4))) [-7, 3] [0]) =
+    [enc 5 2 2 (w64 (1 * 2 ^ 4 * 4)), enc 5 2 2 (w64 (1 * 2 ^ 0 * 4))] := by decide
+
+/-- C03 / C04 as hypothesis structures: a GGLWE of `m` has row `i` with constant plaintext `m·2^{resB(dnum−1−i)}·scale`
+(limb vector `enc`); `ggsw_expand_row` turns a GGLWE of `m` into a GGSW of `m` (C04 row-expansion statement). -/
+def IsGGLWEOf (b size resB dnum : Nat) (scale : Int) (m : Int) (rows : List Lut.Vec) : Prop :=
+  rows = (List.range dnum).map fun i => Lut.enc b size size (w64 (m * 2 ^ (resB * (dnum - 1 - i)) * scale))
+
+structure ExpandRowContract (G : Type) (b size resB dnum : Nat) (scale : Int) where
+  expand : List Lut.Vec → G
+  isGGSWOf : Int → G → Prop
+  sound : ∀ m rows, IsGGLWEOf b size resB dnum scale m rows → isGGSWOf m (expand rows)
+
+/-- **LWE bit → GGSW of the bit** (composition): rows from `cbt_rows_bit`, then the row-expansion contract. -/
+theorem cbt_gives_ggsw {G : Type} (b size resB dnum : Nat) (scale : Int) (C : ExpandRowContract G b size resB dnum scale)
+    (bit : Nat) (rows : List Lut.Vec)
+    (hrows : rows = (List.range dnum).map fun i =>
+      Lut.enc b size size (w64 (((bit : Nat) : Int) * 2 ^ (resB * (dnum - 1 - i)) * scale))) :
+    C.isGGSWOf (bit : Int) (C.expand rows) := C.sound _ rows hrows
+
+/-- what a prepared bit holds, given what item `i` of the loop produces -/
+def preparedBit (bitOf : Nat → Bool) : Threads.Act → Bool
+  | .item _ _ i => bitOf i
+  | .zero => false
+  | .untouched => false
+
+/-- **`fhe_uint_prepare_custom(_multi_thread)` prepares exactly the bits of the range.**  For every word, every
+`(start, count)` with `start + count ≤ 32`, every thread count ≥ 1 and sufficient scratch: the call succeeds and
+prepared bit `j` is the GGSW of `w_j` for `start ≤ j < start + count` (item `j` = `get_bit_lwe(j)` — coefficient
+`bit_index(j) << log_gap`, `encode_decode_bit` — followed by circuit bootstrapping, `cbt_gives_ggsw`) and the zero
+GGSW elsewhere; no bit is left untouched.  (Partition / zeroing: C20's `execPrepare_table`.) -/
+theorem prepare_bits (w : BitVec 32) (threads start count avail per : Nat) (ht : 1 ≤ threads) (hr : start + count ≤ 32)
+    (hs : threads * per ≤ avail) (hs2 : Threads.splitNeeded threads per ≤ avail) :
+    ∃ acts, Threads.execPrepare threads 32 start count avail per = .ok acts ∧ acts.length = 32 ∧
+      ∀ j (h : j < acts.length),
+        preparedBit w.getLsbD acts[j] = (decide (start ≤ j ∧ j < start + count) && w.getLsbD j) := by
+  obtain ⟨acts, h1, h2, h3⟩ := C20.execPrepare_table threads 32 start count avail per ht hr hs hs2
+  refine ⟨acts, h1, h2, fun j hj => ?_⟩
+  have := h3 j hj
+  by_cases hin : start ≤ j ∧ j < start + count
+  · rw [if_pos hin] at this
+    obtain ⟨t, _, hact⟩ := this
+    rw [hact]; simp [preparedBit, hin]
+  · rw [if_neg hin] at this
+    rw [this]; simp [preparedBit, hin]
+
+example : ∃ acts, Threads.execPrepare 3 32 5 9 4096 1024 = .ok acts ∧ preparedBit (0xFFFFFFFF#32).getLsbD (acts.getD 7 .untouched) = true ∧
+    preparedBit (0xFFFFFFFF#32).getLsbD (acts.getD 14 .untouched) = false := by
+  refine ⟨_, rfl, ?_, ?_⟩ <;> decide
+
+/-- the word the driver prints for a partially prepared integer has exactly those bits -/
+theorem prepareCustomWord_bits (w start count : Nat) : ∀ k, k ≤ 32 →
+    (List.range k).foldl (fun acc i => if start ≤ i ∧ i < start + count ∧ (w >>> i) % 2 = 1 then acc + 2 ^ i else acc) 0 < 2 ^ k ∧
+    ∀ i, i < k → ((List.range k).foldl (fun acc i => if start ≤ i ∧ i < start + count ∧ (w >>> i) % 2 = 1 then acc + 2 ^ i else acc) 0).testBit i
+      = decide (start ≤ i ∧ i < start + count ∧ (w >>> i) % 2 = 1) := by
+  intro k
+  induction k with
+  | zero => intro _; simp
+  | succ k ih =>
+    intro hk
+    obtain ⟨h1, h2⟩ := ih (by omega)
+    rw [List.range_succ, List.foldl_append]
+    simp only [List.foldl_cons, List.foldl_nil]
+    generalize (List.range k).foldl (fun acc i => if start ≤ i ∧ i < start + count ∧ (w >>> i) % 2 = 1 then acc + 2 ^ i else acc) 0 = S at h1 h2
+    have hp : 2 ^ (k + 1) = 2 * 2 ^ k := by rw [Nat.pow_succ, Nat.mul_comm]
+    by_cases hd : start ≤ k ∧ k < start + count ∧ (w >>> k) % 2 = 1
+    · simp only [hd, and_self, if_true]
+      refine ⟨by omega, fun i hi => ?_⟩
+      rcases Nat.lt_succ_iff_lt_or_eq.1 hi with h | h
+      · rw [Nat.add_comm, Nat.testBit_two_pow_add_gt h]; exact h2 i h
+      · subst h
+        rw [Nat.add_comm, Nat.testBit_two_pow_add_eq, Nat.testBit_lt_two_pow h1]; simp [hd]
+    · simp only [hd, if_false]
+      refine ⟨by omega, fun i hi => ?_⟩
+      rcases Nat.lt_succ_iff_lt_or_eq.1 hi with h | h
+      · exact h2 i h
+      · subst h
+        rw [Nat.testBit_lt_two_pow h1]; simp [hd]
+
+/-- **`from_fhe_uint_prepared`** (`cmux(one, zero, bit_i)` per bit, then `pack`): the packed integer decrypts to the
+word whose bits are the prepared bits — `word_op_composes` at the identity. -/
+theorem from_prepared_word (w : BitVec 32) (outBits : List Int) (hlen : outBits.length = 32)
+    (hcmux : ∀ i, i < 32 → outBits.getD i 0 = if w.getLsbD i then 1 else 0) (i : Nat) (hi : i < 32) :
+    FheUint.decodeBit FheUint.u32 (FheUint.pack FheUint.u32 outBits) i = w.getLsbD i :=
+  word_op_composes (fun a _ => a) w w w.getLsbD (fun _ _ => rfl) outBits hlen hcmux i hi
+
+/-- **`get_bit_lwe(i)` / `lwe_from_glwe` index.**  The LWE of bit `i` is extracted at coefficient
+`bit_index(i) << log_gap` (`coeffIndex`, injective in `i`: `coeffIndex_injective`); in the slot model that is slot
+`bit_index(i)`, whose plaintext value is exactly `w_i ∈ {0,1}` (at torus precision 2, i.e. phase `w_i/4`). -/
+theorem get_bit_lwe_value (w : BitVec 32) (i : Nat) (hi : i < 32) :
+    FheUint.encode FheUint.u32 w.toNat (FheUint.bitIndex FheUint.u32 i) = if w.getLsbD i then 1 else 0 := by
+  have hb := bitIndex_bijection.2.2 i hi
+  unfold FheUint.encode
+  simp only [show FheUint.u32.bits = 32 from rfl, hb.1, if_true, hb.2.1]
+  have h2 := Nat.mod_two_eq_zero_or_one (w.toNat >>> i)
+  have ht : w.getLsbD i = (w.toNat).testBit i := rfl
+  rw [ht, Nat.testBit_eq_decide_div_mod_eq, ← Nat.shiftRight_eq_div_pow]
+  rcases h2 with h | h <;> simp [h]
+
+example : FheUint.encode FheUint.u32 0x84838281 (FheUint.bitIndex FheUint.u32 7) = 1 := by decide
 
 end C15
